@@ -21,6 +21,10 @@ ROWS = [
      "usize sum of per-file entry counts, bounded by the input size", None, 1),
     (r"CountMissingReferenceIdProcessor as .*::map::\{closure#0\}$", r"^Add\(%s,1\):u32$" % V,
      "u32 count of missing references in one file: overflow needs > 4294967295 statements (> 20 GB) in a single file — not an input of ordinary shape", None, 1),
+    (r"(NextReferenceIdProcessor|InsertReferencesProcessor) as .*::reduce::\{closure#\d+\}$", r"^Add\(%s,%s\.(1|num_inserted_references)\):usize$" % (V, V),
+     "the same usize sums written as iter().fold(0, |t, r| t + r.f): bounded by the number of entries", None, 2),
+    (r"CountMissingReferenceIdProcessor as .*::reduce::\{closure#\d+\}$", r"^Add\(%s,%s\):u32$" % (V, V),
+     "the same u32 sum written as iter().fold(0, |t, r| t + *r): overflow needs > 4294967295 unreferenced statements — not an input of ordinary shape", None, 1),
     (r"CountMissingReferenceIdProcessor as .*::reduce$", r"^Add\(%s,%s\):u32$" % (V, V),
      "u32 sum of per-file counts: overflow needs > 4294967295 unreferenced statements in the tree — not an input of ordinary shape", None, 1),
     (r"InsertReferencesProcessor as .*::map::\{closure#0\}$", r"^Add\(%s,1\):usize$" % V,
